@@ -25,7 +25,9 @@ type deadNonceKey struct {
 
 // DeadNonceList represents the Dead Nonce List for a forwarding thread.
 type DeadNonceList struct {
-	list            map[deadNonceKey]bool
+	// list maps an entry to its item in the expiration queue, so that recording the
+	// entry again can renew it
+	list            map[deadNonceKey]*priority_queue.Item[deadNonceKey, int64]
 	expirationQueue priority_queue.Queue[deadNonceKey, int64]
 	Ticker          *time.Ticker
 }
@@ -33,7 +35,7 @@ type DeadNonceList struct {
 // NewDeadNonceList creates a new Dead Nonce List for a forwarding thread.
 func NewDeadNonceList() *DeadNonceList {
 	d := new(DeadNonceList)
-	d.list = make(map[deadNonceKey]bool)
+	d.list = make(map[deadNonceKey]*priority_queue.Item[deadNonceKey, int64])
 	d.Ticker = time.NewTicker(100 * time.Millisecond)
 	d.expirationQueue = priority_queue.New[deadNonceKey, int64]()
 	return d
@@ -47,13 +49,18 @@ func (d *DeadNonceList) Find(name enc.Name, nonce uint32) bool {
 
 // Insert inserts an entry in the Dead Nonce List with the specified name and nonce.
 // Returns whether nonce already present.
+// A nonce that is recorded again stays dead for a full lifetime from now on: the entry
+// is renewed (moved to the back of the expiration queue), not left to expire with the
+// lifetime of the first recording.
 func (d *DeadNonceList) Insert(name enc.Name, nonce uint32) bool {
 	hash := deadNonceKey{name.Hash(), nonce}
-	_, exists := d.list[hash]
+	item, exists := d.list[hash]
+	expiration := time.Now().Add(deadNonceListLifetime).UnixNano()
 
 	if !exists {
-		d.list[hash] = true
-		d.expirationQueue.Push(hash, time.Now().Add(deadNonceListLifetime).UnixNano())
+		d.list[hash] = d.expirationQueue.Push(hash, expiration)
+	} else {
+		d.expirationQueue.Update(item, hash, expiration)
 	}
 	return exists
 }
